@@ -227,8 +227,17 @@ def run_mass(case):
                     if not np.allclose(got, want, rtol=1e-9, atol=1e-9):
                         devs.append((f'iterate:{case["dir"]}', f'piston profile gs={gs.tolist()} tas={tas.tolist()} ({case["windname"]} wind) cruise={cr.tolist()} ({cr.dtype}) n_iter={n_iter}: mass = {np.asarray(got).tolist()}; specification: {want.tolist()}'))
                         break
+                # the mass vector is a float64 vector of the prescribed anchor whatever the TYPES of the profile
+                # arrays: integer / float32 altitudes and temperatures, anchor off the integers (the recurrence of
+                # BadaMass.tla is invariant under translation of the anchor: a piston's fuel flow ignores the mass)
+                alt_t = [np.int64, np.float32, np.int32][(sum(prof) + 2 * n) % 3]
+                targs = (np.full(n, 288, alt_t if alt_t is not np.float32 else float), z.astype(alt_t)) + args[2:]
+                meth = 'iterate_flight_simulation_constant_' + ('initial' if case['dir'] == 'forward' else 'final') + '_mass'
+                got = np.asarray(getattr(model, meth)(*targs, float(case['anchor']) + 0.7501, n_iter=2))
+                if got.dtype != np.float64 or not np.allclose(got, want + 0.7501, rtol=1e-12, atol=1e-9):
+                    devs.append((f'iterate:{case["dir"]}:profile-type', f'piston profile gs={gs.tolist()} with {alt_t.__name__} altitudes, anchor {case["anchor"]}+0.7501: mass = {got.tolist()} ({got.dtype}); specification: {(want + 0.7501).tolist()} (float64)'))
                 if case['dir'] == 'forward':
-                    burn = float(want[0] - want[-1])
+                    burn =float(want[0] - want[-1])
                     for mtow, oew in ((1200.0, 900.0), (950.0, 900.0), (5000.0, 200.0)):
                         for meth, rf in (('iterate_flight_simulation_fuel_burn_dependent_initial_mass_rf_fraction', 0.1), ('iterate_flight_simulation_fuel_burn_dependent_initial_mass_rf_value', 5.0)):
                           # BadaMass.tla IterCounts: every iteration count, also a single one and the default
